@@ -921,6 +921,17 @@ fn exec_entry(case: &Value) -> Exec {
             return e.with_tags(tags);
         }
     }
+    // closed form: a completed run of a module has every name the generator exported (the self-differential
+    // cannot see a loss that every entry point suffers alike)
+    if all[0].1.end.starts_with("complete:") {
+        let have: Vec<&String> = all[0].1.exports.iter().map(|(k, _)| k).collect();
+        let missing: Vec<String> = strs(&case["expected_exports"]).into_iter().filter(|n| !have.contains(&n)).collect();
+        if !missing.is_empty() {
+            let mut e = Exec::fail("c19:entry:closed-form:export-missing", format!("the module completed but its export table lacks {:?} (has {:?}) on every entry point", missing, have));
+            e.observed = observed(&all);
+            return e.with_tags(tags);
+        }
+    }
     let b = &all[0].1;
     let is_module = path.is_some();
     let has_orders = b.suspensions > 0;
@@ -1181,6 +1192,23 @@ fn exec_role(case: &Value) -> Exec {
         }
     }
     let rep = obs[0].1.run.end.strip_prefix("complete:json:").and_then(|t| serde_json::from_str::<Value>(t).ok()).unwrap_or(Value::Null);
+    // closed form: every name the generator exported is in the namespace the importer sees (all roles agree by now)
+    // and in the host's view of the entry module
+    if !own_failed && rep["names"].is_array() {
+        let have = strs(&rep["names"]);
+        let expected = strs(&case["expected_exports"]);
+        let missing: Vec<String> = expected.iter().filter(|n| !have.contains(n)).cloned().collect();
+        if !missing.is_empty() {
+            return fail("c19:role:closed-form:export-missing".into(), format!("the module loaded but its namespace lacks {:?} (has {:?}) in every role", missing, have), &obs, &tags);
+        }
+        if let Some(own) = obs[0].1.own.as_ref().filter(|o| o.end.starts_with("complete:")) {
+            let host: Vec<&String> = own.exports.iter().map(|(k, _)| k).collect();
+            let missing: Vec<String> = expected.iter().filter(|n| !host.contains(n)).cloned().collect();
+            if !missing.is_empty() {
+                return fail("c19:role:closed-form:host-export-missing".into(), format!("get_export_names() of the completed entry module lacks {:?} (has {:?})", missing, host), &obs, &tags);
+            }
+        }
+    }
     let n_exports = rep["names"].as_array().map(|a| a.len()).unwrap_or(0);
     let live_changed = rep["before"] != rep["after"];
     let has_imports = case["m_has_imports"].as_bool().unwrap_or(false);
